@@ -117,7 +117,7 @@ def run(tier):
                 continue
             cases.append({"kind": "totals", "id": len(cases) + 1, "rows": [{k: row[k] for k in ("og", "ng", "os", "ns", "ol", "nl")} for row in r["rows"]],
                           "totals": r["totals"], "_opt": " ".join(argv), "_n": len(r["rows"])})
-    verdicts, st = run_cost([{k: v for k, v in c.items() if not k.startswith("_")} for c in cases], 32 if tier == "quick" else 256)
+    verdicts, st = run_cost([{k: v for k, v in c.items() if not k.startswith("_")} for c in cases], 32 if tier == "quick" else 128)
     viol, undec = [], 0
     for c in cases:
         vl = verdicts.get(c["id"], [])
